@@ -2,7 +2,8 @@
 (***************************************************************************)
 (* Rendered text as a sequence of character tokens.  TLC strings are       *)
 (* atomic, so a text is a sequence of one-character strings plus the named *)
-(* tokens "SP" (space), "TAB", "U2" / "U3" / "U4" (one multi-byte UTF-8     *)
+(* tokens "SP" (space), "TAB", "LF" / "NB" / "EM" (line feed, U+00A0,      *)
+(* U+2003: white space that is NOT a blank), "U2" / "U3" / "U4" (one multi-byte UTF-8     *)
 (* rune of that many bytes).  Multi-byte runes are therefore atomic by     *)
 (* construction.  The harness maps runes <-> tokens; a rune without a      *)
 (* token projects to "?<hex>" and so can never match.                      *)
